@@ -158,6 +158,8 @@ def eval_contract_native(C, nargs, outcome, value, post_args):
                 failed.append("raises.required." + cls)
     else:
         allowed = [when(a) for cls, when in C.raises if exc_matches(value, cls)]
+        if any(exc_matches(value, m) for m in C.may_raise):
+            allowed.append(True)
         if not any(_truthy(w) for w in allowed):
             failed.append(("raises.allowed." if allowed else "safe.") + value)
     # frame: arguments not listed as writable must be unchanged
